@@ -164,6 +164,12 @@ inductive Outcome where
   | serve (path : Path) (content : Bytes)
 deriving Repr, DecidableEq
 
+/-- the path handed to `open` / `opendir` when something was served or listed -/
+def Outcome.opened : Outcome → Option Path
+  | .serve p _ => some p
+  | .listing _ p _ => some p
+  | _ => none
+
 /-- `memcmp(d.name(),".",1) == 0` (d.name() is a C string: a missing byte compares as NUL) -/
 def isDotFile (name : Bytes) : Bool :=
   (name ++ [0]).take Gen.listSkipLen == (Gen.listSkipStr ++ [0]).take Gen.listSkipLen
